@@ -54,7 +54,8 @@ EXPECT_PROBES = ["announced", "lost_announced", "lost_half_open",
                  "unrelated_bad_type_error_mid_handshake",
                  "glued_to_handshake_end", "nexus_up_listener_raised",
                  "nexus_down_listener_halted", "hub_epoll",
-                 "nexus_option_clear_flows_on_connect"]
+                 "nexus_option_clear_flows_on_connect",
+                 "shutdown_with_several_datapaths"]
 
 DPIDS = [0x11, 0x2200000022]
 # the two datapath ids of a run are drawn from here (cfg["dpids"]); 0 and
@@ -83,6 +84,7 @@ def gen_plan(seed, tier):
   # the nexus' own options: keep the switch's flows on connect, other
   # miss_send_len settings (what the handshake writes changes, what it waits
   # for must not)
+  cfg["shutdown_at_end"] = Rng(mix(seed, "down")).chance(0.3)
   r5 = Rng(mix(seed, "nexus"))
   cfg["nexus"] = {}
   if r5.chance(0.3):
@@ -377,6 +379,21 @@ def _drive(sim, plan, known, hit):
   sim.advance(0.5)
   settle_all()
   _check(sim, world, peers, known, hit, final=True)
+  if cfg.get("shutdown_at_end"):
+    # the controller goes down (core's DownEvent, as core.quit() raises it):
+    # every datapath in the registry is disconnected, with the usual
+    # announcement, and the registry ends empty
+    import pox.core as PC
+    reg = world.nexus.connections
+    held = [reg[d] for d in list(reg.dpids)]
+    if len(held) >= 2:
+      sim.probes["shutdown_with_several_datapaths"] += 1
+    world.core.raiseEventNoErrors(PC.DownEvent())
+    settle_all()
+    for p, (peer, m) in peers.items():
+      if peer.con is not None and any(peer.con is c for c in held):
+        m.live = False
+    _check(sim, world, peers, known, hit, final=True)
   if sim.task_deaths:
     raise Violation("task-died", "the OpenFlow task was de-scheduled: %r"
                     % (sim.task_deaths[:2],))
